@@ -39,6 +39,25 @@ func isEventPtr(t types.Type) bool {
 // walkEventChain walks back from an *Event value to the Logger call starting it.
 func walkEventChain(v ssa.Value) (start *ssa.Call, level string) {
 	for i := 0; i < 64; i++ {
+		// an event kept in a variable that is optionally decorated (event = event.Err(cause)): every
+		// edge must lead back to an event of the same level
+		if ph, ok := v.(*ssa.Phi); ok {
+			var st *ssa.Call
+			lv := ""
+			for j, e := range ph.Edges {
+				if e == ssa.Value(ph) {
+					continue
+				}
+				s2, l2 := walkEventChain(e)
+				if s2 == nil || (j > 0 && st != nil && l2 != lv) {
+					return nil, ""
+				}
+				if st == nil {
+					st, lv = s2, l2
+				}
+			}
+			return st, lv
+		}
 		c, ok := v.(*ssa.Call)
 		if !ok {
 			return nil, ""
